@@ -12,6 +12,8 @@ Static clauses:
              resolver and compiler crates' resolve closure
 Not decided: that the fix-point reached is independent of the starting body when no reset exists (value-level).
 """
+import json
+import os
 import re
 
 from .. import mir
@@ -242,6 +244,33 @@ def s_refresh(F, res):
     res.floor("refresh obligations", n, 1)
 
 
+def s_washout(F, res):
+    """S-WASHOUT: as long as a kept body exists that a first round may size against (S-STALE), the only thing that removes the
+    earlier transaction's influence is the resolve loop re-evaluating until a pass reproduces its predecessor.  Every success
+    exit of the round loop must therefore be the confirmed one (`eval_pass() == None`).  The exit on the round bound is the
+    genuine defect listed under C05 (S-CONVERGE) and is not repeated here; any *other* way of leaving the loop early returns a
+    transaction that may still be sized from the previous history."""
+    from .. import e8_state
+    f, exits = e8_state.resolve_loop_exits(F)
+    listed = json.load(open(os.path.join(os.path.dirname(os.path.dirname(os.path.dirname(os.path.abspath(__file__)))), "tables", "known_findings.json")))
+    listed = listed["findings"] if isinstance(listed, dict) else listed
+    c05_known = {x["key"] for x in listed if x.get("property") == "C05" and not str(x.get("status", "")).startswith("fixed")}
+    n = 0
+    for kind, line, detail in exits:
+        if not kind.startswith("unconverged"):
+            continue
+        n += 1
+        key = "tx3_resolver::resolve_tx|loop exit (%s)" % kind
+        if ("S-CONVERGE|" + key) in c05_known:
+            res.add([assumption("S-WASHOUT", key, where(f, line), "the give-up exit on the round bound is a listed finding of C05 (S-CONVERGE); whether history can still show after that many rounds is not decided here")])
+        else:
+            res.add([finding("S-WASHOUT", key, where(f, line), "resolve_tx %s: a first round sized from the body an earlier transaction left in the compiler is returned without a pass having reproduced it - the outcome depends on what the instance compiled before" % detail)])
+    if not any(k == "converged" for k, _, _ in exits):
+        res.add([finding("S-WASHOUT", "tx3_resolver::resolve_tx|no convergence exit", where(f), "the loop has no exit on eval_pass() == None")])
+    elif n == 0 or all(o.status != "finding" for o in res.obs if o.rule == "S-WASHOUT"):
+        res.add([ok("S-WASHOUT", "tx3_resolver::resolve_tx|success exits are confirmed fixed points", where(f), "apart from the listed give-up exit, the loop is left towards Ok(..) only when a pass reproduced the previous one")])
+
+
 INTERIOR = re.compile(r"std::cell::(Cell|RefCell|OnceCell|UnsafeCell)<|std::sync::(Mutex|RwLock|OnceLock)<|std::sync::atomic::")
 
 
@@ -275,5 +304,7 @@ def run(ctx):
     res.rule("S-REFRESH", "a field compile() keeps for reduce_op is replaced by every successful compile()")
     s_stale(F, res)
     s_refresh(F, res)
+    res.rule("S-WASHOUT", "the resolve loop leaves towards Ok(..) only on a confirmed fixed point (the listed C05 give-up exit apart)")
+    s_washout(F, res)
     s_nostate(F, res)
     return res
